@@ -40,6 +40,7 @@ ENTRY_ITEMS = [[0, 1, 3, 4, 2], [5, 6, 8]]
 
 def units(tier):
     out = []
+    out.append({'fam': 'sharedlist'})
     out.append({'fam': 'entry'})
     L = 7 if tier == 'quick' else 8
     n = 8 if tier == 'quick' else 32
@@ -68,6 +69,9 @@ def units(tier):
 
 
 def cases(unit):
+    if unit.get('fam') == 'sharedlist':
+        yield {'fam': 'sharedlist'}
+        return
     if unit.get('fam') == 'entry':
         # the operator reached through the `sources=` entry point of with_store: two live sources share one store
         for si in range(len(ENTRY_SPECS)):
@@ -119,6 +123,13 @@ def viol(fam, sym, detail):
 
 
 def run_case(case, acc):
+    if case.get('fam') == 'sharedlist':
+        # one list object used as the pipeline of two operators
+        import rxsci as rs
+        d = harness.shared_list_problem(lambda L: rs.ops.group_by(lambda x: x % 2, L), lambda L: rs.ops.group_by(lambda x: x % 3, L), [0, 1, 2, 3, 4, 5])
+        acc.evals += 3
+        acc.count('shared_pipeline_lists')
+        return [viol('sharedlist', 'pipeline-list-shared-by-two-operators', d)] if d else []
     if case.get('fam') == 'entry':
         specs = [ENTRY_SPECS[case['spec']], ENTRY_OTHER]
         acc.evals += 1
